@@ -45,6 +45,7 @@ def mw(n, p, b, scorer, thr_scale, mdi=1, X=None, level=None):
     det.fit(X)
     sc = np.asarray(det.transform_scores(X), dtype=float)
     y = det.predict(X)
+    core.emit("MovingWindow", y, n=len(X), p=X.shape[1], band=b)
     cpts = [int(c) for c in y["ilocs"]]
     sc2 = np.asarray(det.scores, dtype=float)
     return cpts, sc, sc2, float(det.threshold_)
